@@ -383,7 +383,7 @@ func scenario(r *ev.Run, rng *rand.Rand, sample bool) {
 	ps := gen.Parties(rng, n)
 	p := gen.Params(rng, ps, gen.AppOf(app))
 	idx := rng.Intn(n)
-	m, err := channel.NewStateMachine(gen.AccMap(ps[idx].Acc), *p)
+	m, err := channel.NewStateMachine(ps[idx].AccMap(), *p)
 	if err != nil {
 		panic(err)
 	}
